@@ -12,6 +12,7 @@ META = {
 def run(run, model):
     run.do(msg.sorted_rule, model)
     run.do(msg.a_repr_rule, model)
+    run.do(msg.default_repr, model)
     run.do(msg.filter_rule, model)
     run.do(msg.args_listed, model, "C20.filter-args")
     run.do(msg.hide_placeholders, model)
